@@ -30,6 +30,17 @@ type c07Variant struct {
 	Stale       bool              `json:"stale,omitempty"`
 	PoolSeed    uint64            `json:"pool_seed,omitempty"`
 	Prelude     [][]string        `json:"prelude,omitempty"` // earlier invocations in the same process
+	PreludeWd   []string          `json:"prelude_wd,omitempty"` // earlier invocation i made through sdk.RunThriftgoAsSDK with this working directory
+	SdkWd       string            `json:"sdk_wd,omitempty"`     // the observed invocation is sdk.RunThriftgoAsSDK(SdkWd, ...); its baseline is the same call with nothing before it
+}
+
+// c07BaseFor: the run a variant is compared with.
+func c07BaseFor(v *c07Variant) *c07Variant {
+	b := &c07Variant{Name: "baseline", MapMode: "sorted", Strategy: "rtb", Parallelism: 1}
+	if v != nil && v.SdkWd != "" {
+		b.Name, b.SdkWd = "sdk-baseline", v.SdkWd
+	}
+	return b
 }
 
 type c07Pair struct {
@@ -67,8 +78,12 @@ func (p *c07Pair) spec(v *c07Variant) *simrt.Spec {
 		cc.Plugins = []plugSpec{{Name: "rec", Path: "/plug/rec", Opts: "k=v,flag", Script: map[string]interface{}{"decode": true, "out_prefix": "$OUT", "files": files}, Version: p.PlugVer}}
 	}
 	cc.Prelude = v.Prelude
+	cc.SdkWd = v.SdkWd
 	if len(v.Prelude) > 0 {
 		cc.Prelude = append(append([][]string{}, p.PreInv...), v.Prelude...)
+		if len(v.PreludeWd) > 0 {
+			cc.PreludeWd = append(make([]string, len(p.PreInv)), v.PreludeWd...)
+		}
 	}
 	cc.Extra = p.Extra
 	sp := cc.spec(1)
@@ -268,6 +283,10 @@ func c07Check(a *artefacts, tier string, seed uint64, replay string) int {
 		if prog.Model != nil && i%7 == 6 {
 			c07IncludeDirs(pair, prog)
 		}
+		sdkPhase := cfg.Backend == "go" && (i%5 == 2 || c07HasCodeRef(cfg))
+		if sdkPhase {
+			c07SdkFiles(pr, pair)
+		}
 		if pr.Chance(1, 2) {
 			pair.Plugin = true
 			pair.PlugVer = []string{"v0.4.2", "v0.4.1", "v0.5.0", ""}[pr.Intn(4)]
@@ -331,7 +350,7 @@ func c07Check(a *artefacts, tier string, seed uint64, replay string) int {
 			{Name: "maps-reversed+stale-output", MapMode: "reversed", Strategy: "rtb", Parallelism: 1, Stale: true},
 			{Name: "maps-random+schedule+parallelism", MapMode: "random", MapSeed: pr.Uint64(), Strategy: "random", SchedSeed: pr.Uint64(), Parallelism: 2 + pr.Intn(15), PoolSeed: pr.Uint64()},
 			{Name: "after-other-invocations-in-the-same-process", MapMode: "sorted", Strategy: "rtb", Parallelism: 1, Prelude: c07Prelude(pr, pair)},
-			{Name: "other-output-dir+stale-output", MapMode: "random", MapSeed: pr.Uint64(), Strategy: "pct", SchedSeed: pr.Uint64(), Parallelism: 1 + pr.Intn(16), OutDir: []string{"/elsewhere/deep/o2", "/work/gen-out", "/o", "/srv/proj.gopath/gen", "/data/v1.golden"}[pr.Intn(5)], Stale: true},
+			{Name: "other-output-dir+stale-output", MapMode: "random", MapSeed: pr.Uint64(), Strategy: "pct", SchedSeed: pr.Uint64(), Parallelism: 1 + pr.Intn(16), OutDir: []string{"/elsewhere/deep/o2", "/work/gen-out", "/zq7.o", "/srv/proj.gopath/gen", "/data/v1.golden"}[pr.Intn(5)], Stale: true},
 			{Name: "maps-random-2", MapMode: "random", MapSeed: pr.Uint64(), Strategy: "rtb", Parallelism: 1},
 			{Name: "schedule-only", MapMode: "sorted", Strategy: "random", SchedSeed: pr.Uint64(), Parallelism: 16, PoolSeed: pr.Uint64()},
 			{Name: "maps-random-3+stale", MapMode: "random", MapSeed: pr.Uint64(), Strategy: "pct", SchedSeed: pr.Uint64(), Parallelism: 8, Stale: true},
@@ -383,6 +402,38 @@ func c07Check(a *artefacts, tier string, seed uint64, replay string) int {
 				foundHere[d.Class] = true
 				mu.Lock()
 				founds = append(founds, &c07Found{Pair: pair, Variant: v, Class: d.Class, Detail: d.Detail})
+				mu.Unlock()
+			}
+		}
+		if sdkPhase {
+			// the same call made through sdk.RunThriftgoAsSDK: first with nothing before it, then after
+			// calls for other projects (other working directories, one of them with an idl-ref.yml)
+			sv := c07SdkVariant(pr, pair)
+			sb, _ := c07Run(a, pair, c07BaseFor(sv))
+			mu.Lock()
+			runs++
+			mu.Unlock()
+			if sb != nil && sb.Exit == 0 && len(sb.Files) > 0 {
+				vv, vw := c07Run(a, pair, sv)
+				mu.Lock()
+				runs++
+				if vv == nil {
+					if vw.Watchdog {
+						stats["variant.watchdog"]++
+					} else if trouble == nil {
+						trouble = fmt.Errorf("variant %s of %s with %s: %v", sv.Name, prog.Name, cfg, vw.Err)
+					}
+				} else {
+					stats["variant."+sv.Name]++
+					simNanos += vv.Res.SimNanos
+					for _, d := range c07DiffAll(sb, vv, true) {
+						founds = append(founds, &c07Found{Pair: pair, Variant: sv, Class: d.Class, Detail: d.Detail})
+					}
+				}
+				mu.Unlock()
+			} else {
+				mu.Lock()
+				stats["sdk-baseline.discarded"]++
 				mu.Unlock()
 			}
 		}
@@ -553,23 +604,30 @@ func c07Size(p *c07Pair) int {
 
 var c07Base = &c07Variant{Name: "baseline", MapMode: "sorted", Strategy: "rtb", Parallelism: 1}
 
-var c07BaseCache sync.Map // *c07Pair -> *c07View
+var c07BaseCache sync.Map // c07BaseKey -> *c07View
+
+type c07BaseKey struct {
+	p   *c07Pair
+	sdk string
+}
 
 func c07Differs(a *artefacts, p *c07Pair, v *c07Variant, class string) (string, bool) {
 	var bv *c07View
-	if c, ok := c07BaseCache.Load(p); ok {
+	base := c07BaseFor(v)
+	key := c07BaseKey{p, v.SdkWd}
+	if c, ok := c07BaseCache.Load(key); ok {
 		bv = c.(*c07View)
 	} else {
-		bv, _ = c07Run(a, p, c07Base)
+		bv, _ = c07Run(a, p, base)
 		if bv != nil {
-			c07BaseCache.Store(p, bv)
+			c07BaseCache.Store(key, bv)
 		}
 	}
 	vv, _ := c07Run(a, p, v)
 	if bv == nil || vv == nil || bv.Exit != 0 {
 		return "", false
 	}
-	cls, det := c07Diff(bv, vv, v.outDir() == c07Base.outDir(), class)
+	cls, det := c07Diff(bv, vv, v.outDir() == base.outDir(), class)
 	return det, cls == class
 }
 
@@ -585,7 +643,8 @@ func c07Isolate(a *artefacts, f *c07Found) []*c07Found {
 			v = w
 		}
 	}
-	try(func(w *c07Variant) { w.Prelude = nil })
+	try(func(w *c07Variant) { w.Prelude, w.PreludeWd = nil, nil })
+	try(func(w *c07Variant) { w.PreludeWd = nil })
 	try(func(w *c07Variant) { w.Stale = false })
 	try(func(w *c07Variant) { w.OutDir = "" })
 	try(func(w *c07Variant) { w.Strategy, w.SchedSeed, w.PoolSeed = "rtb", 0, 0 })
@@ -595,6 +654,9 @@ func c07Isolate(a *artefacts, f *c07Found) []*c07Found {
 		var d []string
 		if len(v.Prelude) > 0 {
 			d = append(d, "previous-invocations")
+		}
+		if v.SdkWd != "" && len(v.PreludeWd) > 0 {
+			d = append(d, "sdk-working-directories")
 		}
 		if v.Stale {
 			d = append(d, "stale-output")
@@ -762,7 +824,7 @@ func c07ReplayOK(a *artefacts, rf *replayFile) (bool, string) {
 	if err := json.Unmarshal(rf.Payload, &pl); err != nil {
 		return false, err.Error()
 	}
-	base := &c07Variant{Name: "baseline", MapMode: "sorted", Strategy: "rtb", Parallelism: 1}
+	base := c07BaseFor(pl.Variant)
 	var last string
 	for i := 0; i < 2; i++ {
 		bv, bw := c07Run(a, pl.Pair, base)
@@ -868,4 +930,73 @@ func c07IncludeDirs(pair *c07Pair, prog *program) {
 		pair.PreInv = [][]string{inv}
 		return
 	}
+}
+
+func c07HasCodeRef(c config) bool {
+	for _, o := range c.Opts {
+		if strings.HasPrefix(o, "code_ref") || strings.HasPrefix(o, "exp_code_ref") {
+			if !strings.HasSuffix(o, "=false") {
+				return true
+			}
+		}
+	}
+	return false
+}
+
+// c07SdkFiles prepares a pair for the SDK phase: a code-ref option in the configuration, another
+// project directory (/sdkproj) whose idl-ref.yml maps every IDL file of this program to a remote
+// package, and sometimes an idl-ref.yml of the project itself that maps one included file.
+func c07SdkFiles(r *simrt.Rand, p *c07Pair) {
+	if !c07HasCodeRef(p.Cfg) {
+		p.Cfg.Opts = append(append([]string{}, p.Cfg.Opts...), []string{"code_ref", "code_ref_slim", "exp_code_ref"}[r.Intn(3)])
+	}
+	var idls []string
+	for k := range p.Files {
+		if strings.HasSuffix(k, ".thrift") {
+			idls = append(idls, k)
+		}
+	}
+	sort.Strings(idls)
+	files := map[string][]byte{}
+	for k, b := range p.Files {
+		files[k] = b
+	}
+	var sb strings.Builder
+	sb.WriteString("ref:\n")
+	for i, k := range idls {
+		fmt.Fprintf(&sb, "  %s: \"example.com/remote/p%d\"\n", k, i)
+	}
+	files["/sdkproj/idl-ref.yml"] = []byte(sb.String())
+	main := filepath.Join(p.Cwd, p.Main)
+	if r.Chance(1, 3) {
+		for _, k := range idls {
+			if k != main {
+				files[filepath.Join(p.Cwd, "idl-ref.yml")] = []byte(fmt.Sprintf("ref:\n  %s: \"example.com/own/ref\"\n", k))
+				break
+			}
+		}
+	}
+	p.Files = files
+}
+
+func c07SdkVariant(r *simrt.Rand, p *c07Pair) *c07Variant {
+	v := &c07Variant{Name: "sdk-after-other-working-directories", MapMode: "sorted", Strategy: "rtb", Parallelism: 1, SdkWd: p.Cwd}
+	main := filepath.Join(p.Cwd, p.Main)
+	rec := []string{}
+	if p.Cfg.Rec {
+		rec = []string{"-r"}
+	}
+	n := 1 + r.Intn(2)
+	for i := 0; i < n; i++ {
+		inv := append([]string{"thriftgo", "-g", p.Cfg.gArg()}, rec...)
+		inv = append(inv, p.Extra...)
+		inv = append(inv, "-o", fmt.Sprintf("/prelude/sdk%d", i), main)
+		v.Prelude = append(v.Prelude, inv)
+		wd := "/sdkproj"
+		if i > 0 && r.Chance(1, 2) {
+			wd = "/somewhere/else"
+		}
+		v.PreludeWd = append(v.PreludeWd, wd)
+	}
+	return v
 }
